@@ -199,6 +199,10 @@ fn gen_maint(rng: &mut Rng, profile: &str) -> Op {
         0..=3 => Op::Rotate,
         4..=6 => Op::Flush(w),
         7..=10 => Op::FlushActive(w),
+        11..=14 if moves => Op::Major {
+            target: *rng.pick(&[1u64, 300, 1 << 20, u64::MAX]),
+            w,
+        },
         11..=14 => Op::Leveled {
             l0: *rng.pick(&[1u8, 2, 2, 3, 4]),
             target: *rng.pick(&[1u64, 200, 600, 4096, 1 << 20]),
